@@ -277,10 +277,22 @@ def _run_sharded(exe, lines, nshards=NPROC, timeout=3600, env=None):
     outs = [None] * nshards
     errs = []
 
+    # optional hang protection (opt-in, used by the session properties C01/C02/C05 whose cases are
+    # whole programs): MW_IMPL_CASE_BUDGET = seconds per case; a shard that exceeds its budget is
+    # replayed case by case with a short per-case limit, hanging cases answer TIMEOUT
+    case_budget = float(os.environ.get("MW_IMPL_CASE_BUDGET", "0") or 0)
+
     def work(i):
         try:
-            p = subprocess.run([exe], input="\n".join(chunks[i]) + "\n", stdout=subprocess.PIPE,
-                               stderr=subprocess.DEVNULL, text=True, timeout=timeout, env=env)
+            t = timeout if not case_budget else min(timeout, max(20.0, case_budget * len(chunks[i])))
+            try:
+                p = subprocess.run([exe], input="\n".join(chunks[i]) + "\n", stdout=subprocess.PIPE,
+                                   stderr=subprocess.DEVNULL, text=True, timeout=t, env=env)
+            except subprocess.TimeoutExpired:
+                if not case_budget:
+                    raise
+                outs[i] = _run_one_by_one(exe, chunks[i], env, per_case_timeout=5, max_timeouts=3)
+                return
             res = p.stdout.split("\n")
             if res and res[-1] == "":
                 res.pop()
@@ -304,9 +316,13 @@ def _run_sharded(exe, lines, nshards=NPROC, timeout=3600, env=None):
     return res
 
 
-def _run_one_by_one(exe, lines, env=None, per_case_timeout=20):
+def _run_one_by_one(exe, lines, env=None, per_case_timeout=20, max_timeouts=None):
     res = []
+    ntimeouts = 0
     for ln in lines:
+        if max_timeouts is not None and ntimeouts >= max_timeouts:
+            res.append("NOTRUN after-%d-timeouts-in-this-shard" % ntimeouts)
+            continue
         try:
             p = subprocess.run([exe], input=ln + "\n", stdout=subprocess.PIPE, stderr=subprocess.DEVNULL,
                                text=True, timeout=per_case_timeout, env=env)
@@ -316,6 +332,7 @@ def _run_one_by_one(exe, lines, env=None, per_case_timeout=20):
             res.append(o)
         except subprocess.TimeoutExpired:
             res.append("TIMEOUT")
+            ntimeouts += 1
     return res
 
 
